@@ -446,6 +446,46 @@ func init() {
 func init() {
 	// C18: a fee paid in an 18-decimal asset whose only pool holds one base unit of it: converting ten whole tokens through that
 	// pool makes the pool arithmetic itself panic (the reserve ratio rounds to zero). Several sizes of pool and fee.
+	// C18: an exact-out request passes its dry run while it is a small part of a very unevenly weighted pool (19 : 1); a liquidity
+	// provider's exit later in the same block leaves the out-side barely above the request; at the end of the block the estimate
+	// (balance / (balance - out)) ^ 19 overflows the 18-digit decimals inside the power routine. The request must fail alone.
+	scenarios["c18-exact-out-on-shrunk-pool"] = func(sc *Scn) {
+		w := sc.w
+		lp, trader := w.Accts[0], w.Accts[2]
+		var ref PoolRef
+		var total math.Int
+		w.Seed(func(ctx sdk.Context) {
+			ref = w.createPool(ctx, lp.Addr, false, D("0"), "uatom", math.NewInt(100_000_000_000), math.NewInt(1_900_000_000_000), 1, 19)
+			p, _ := w.App.AmmKeeper.GetPool(ctx, ref.Id)
+			total = p.TotalShares.Amount
+		})
+		sc.Empty(5 * time.Second)
+		sc.Rebegin(ref)
+		for _, left := range []int64{1_000_040_000, 1_000_000_400, 1_001_000_000} {
+			exit := total.Mul(math.NewInt(1_900_000_000_000 - left)).Quo(math.NewInt(1_900_000_000_000))
+			t1 := &histTx{kind: "amm.swapOut", f: J{"pool": ref.Id, "out": []string{"uatom", "1000000000"}, "hops": 1, "recipient": trader.Addr.String(), "signer": trader.Addr.String(), "fee": [][]string{}},
+				req: TxReq{Signer: trader, Msgs: []sdk.Msg{&ammtypes.MsgSwapExactAmountOut{Sender: trader.Addr.String(), Routes: []ammtypes.SwapAmountOutRoute{{PoolId: ref.Id, TokenInDenom: sc.w.usdc()}},
+					TokenOut: sdk.NewCoin("uatom", math.NewInt(1_000_000_000)), TokenInMaxAmount: math.NewInt(1_000_000_000_000_000), Recipient: trader.Addr.String()}}}}
+			t2 := &histTx{kind: "amm.exit", f: J{"pool": ref.Id, "shareIn": exit.String(), "outDenom": "", "signer": lp.Addr.String(), "fee": [][]string{}},
+				req: TxReq{Signer: lp, Msgs: []sdk.Msg{&ammtypes.MsgExitPool{Sender: lp.Addr.String(), PoolId: ref.Id, MinAmountsOut: sdk.Coins{}, ShareAmountIn: exit}}}}
+			if !emitBlock(w, sc.out, sc.id, []*histTx{t1, t2}, 5*time.Second, sc.stats) {
+				return
+			}
+			// the provider comes back with what it took out, for the next round
+			w.Seed(func(ctx sdk.Context) {
+				p, _ := w.App.AmmKeeper.GetPool(ctx, ref.Id)
+				total = p.TotalShares.Amount
+			})
+			sc.Tx("amm.join", lp, J{"pool": ref.Id, "maxIn": [][]string{}, "shareOut": "0", "single": false},
+				&ammtypes.MsgJoinPool{Sender: lp.Addr.String(), PoolId: ref.Id, MaxAmountsIn: sdk.NewCoins(sdk.NewCoin("uatom", math.NewInt(1_890_000_000_000)), sdk.NewCoin(sc.w.usdc(), math.NewInt(99_000_000_000))),
+					ShareAmountOut: total.MulRaw(1800)})
+			w.Seed(func(ctx sdk.Context) {
+				p, _ := w.App.AmmKeeper.GetPool(ctx, ref.Id)
+				total = p.TotalShares.Amount
+			})
+		}
+	}
+
 	scenarios["c18-fee-conversion-panics-in-pool-math"] = func(sc *Scn) {
 		w := sc.w
 		u := w.Accts[1]
